@@ -66,6 +66,7 @@ var (
 	meshErr  string
 	caseSeq  int
 	r1, r2   *announce.Receiver // long-lived: re-subscribing per case would race with subscription gossip
+	r3       *announce.Receiver // on host B like r2, with an allow filter
 	snd      *p2psender.Sender
 )
 
@@ -87,6 +88,10 @@ func mesh(t *testing.T) {
 			return
 		}
 		if r2, err = announce.NewReceiver(hosts[1], "", announce.WithTopic(topics[1])); err != nil {
+			meshErr = err.Error()
+			return
+		}
+		if r3, err = announce.NewReceiver(hosts[1], "", announce.WithTopic(topics[1]), announce.WithAllowPeer(allow3)); err != nil {
 			meshErr = err.Error()
 			return
 		}
@@ -112,8 +117,18 @@ func mesh(t *testing.T) {
 		if !(seen[0] && seen[1]) {
 			meshErr = "receivers never saw the publisher"
 		}
-		t.Cleanup(func() { r1.Close(); r2.Close() })
+		t.Cleanup(func() { r1.Close(); r2.Close(); r3.Close() })
 	})
+}
+
+// allow3 is R3's filter: the relay host A and two of the six original publishers are not allowed. A message
+// re-published by A for an allowed original publisher must pass (the filter applies to the original publisher).
+func allow3(p peer.ID) bool {
+	if len(hosts) > 0 && p == hosts[0].ID() {
+		return false
+	}
+	keys := gen.Keys()
+	return p != keys[4].ID && p != keys[5].ID
 }
 
 func cidFor(caseNo, n int) cid.Cid {
@@ -177,6 +192,14 @@ func runCase(t *testing.T) func(Case) pbt.Result {
 		wg.Add(2)
 		go func() { defer wg.Done(); got1, ok1 = collect(r1, sentinels, mine, 20*time.Second) }()
 		go func() { defer wg.Done(); got2, ok2 = collect(r2, sentinels, mine, 20*time.Second) }()
+		// R3 shares host B's pubsub with R2: both subscriptions are fed the same messages in the same order. Its
+		// window is closed by a flush message that C publishes after R2 has seen both sentinels (A's sentinel
+		// does not pass R3's filter): when R3 delivers the flush, it has processed everything R2 saw.
+		flush := cidFor(caseNo, 1002)
+		var got3 []delivery
+		var ok3 bool
+		done3 := make(chan struct{})
+		go func() { defer close(done3); got3, ok3 = collect(r3, []cid.Cid{flush}, mine, 40*time.Second) }()
 		for i, o := range c.Ops {
 			ci := cidFor(caseNo, o.Cid)
 			res.Classes = append(res.Classes, "op="+o.Kind)
@@ -236,6 +259,10 @@ func runCase(t *testing.T) func(Case) pbt.Result {
 			return pbt.Failf("sentinel from A: %v", err)
 		}
 		wg.Wait()
+		if err := snd.Send(ctx, message.Message{Cid: flush}); err != nil {
+			return pbt.Failf("flush: %v", err)
+		}
+		<-done3
 		res.NonTrivial = len(never1) > 0 || len(c.Ops) >= 3
 		check := func(name string, got []delivery, want map[delivery]bool, never map[string]string) string {
 			cnt := map[string]int{}
@@ -260,6 +287,45 @@ func runCase(t *testing.T) func(Case) pbt.Result {
 		if msg := check("R2", got2, want2, nil); msg != "" {
 			res.Fail = msg
 			return res
+		}
+		// R3: only allowed original publishers, and everything R2 delivered for an allowed publisher
+		{
+			have := map[string]int{}
+			for _, d := range got3 {
+				have[d.Cid]++
+				if !allow3(d.Peer) {
+					res.Fail = fmt.Sprintf("R3 delivered %s attributed to %s, which its allow filter rejects", d.Cid, d.Peer)
+					return res
+				}
+				if !want2[d] {
+					res.Fail = fmt.Sprintf("R3 delivered %s attributed to %s; expected attribution: %v", d.Cid, d.Peer, wantFor(want2, d.Cid))
+					return res
+				}
+				if have[d.Cid] > 1 {
+					res.Fail = fmt.Sprintf("R3 delivered %s twice", d.Cid)
+					return res
+				}
+			}
+			if ok2 && ok3 {
+				for _, d := range got2 {
+					if allow3(d.Peer) && have[d.Cid] == 0 {
+						relayed := ""
+						if d.Peer != C.ID() {
+							relayed = " (re-published by host A, which the filter rejects as a source but which is only the relay)"
+						}
+						res.Fail = fmt.Sprintf("R2 delivered %s for publisher %s, which R3's allow filter accepts%s, but R3, fed the same messages in the same order on the same host, did not deliver it; ops %+v", d.Cid, d.Peer, relayed, c.Ops)
+						return res
+					}
+					if allow3(d.Peer) && d.Peer != C.ID() {
+						res.Classes = append(res.Classes, "r3:allowed-original-via-disallowed-relay")
+					}
+					if !allow3(d.Peer) {
+						res.Classes = append(res.Classes, "r3:disallowed-original")
+					}
+				}
+			} else {
+				res.Classes = append(res.Classes, "inconclusive:r3-window")
+			}
 		}
 		ncids := func(w map[delivery]bool) int {
 			m := map[string]bool{}
@@ -293,7 +359,7 @@ func wantFor(want map[delivery]bool, c string) []peer.ID {
 
 func TestC09_Pubsub(t *testing.T) {
 	pbt.Run(t, pbt.Config{Prop: "C09", Unit: "TestC09_Pubsub",
-		Rule: "three real libp2p hosts on loopback in one gossipsub mesh (A: receiver with WithResend, B: plain receiver, C: p2psender); 1..6 operations: C publishes a new CID, a direct announcement handed to A's receiver for a drawn original publisher (re-published by A), a re-publication put on the topic by host A itself, a repeated CID; a sentinel message from C closes the observation window (no timeout decides non-delivery); oracle: every delivered announcement carries the announced CID once, direct and re-published announcements are attributed to the original publisher (never the relay), the receiver on A never delivers A's own re-publication. Messages that did not arrive before the sentinel are counted as inconclusive, never reported. Non-trivial: the case contains a self re-publication or >= 3 operations and nothing was inconclusive; distinct by case.",
+		Rule: "three real libp2p hosts on loopback in one gossipsub mesh (A: receiver R1 with WithResend, B: plain receiver R2 and receiver R3 whose allow filter rejects host A and two of the six original publishers, C: p2psender); 1..6 operations: C publishes a new CID, a direct announcement handed to A's receiver for a drawn original publisher (re-published by A), a re-publication put on the topic by host A itself, a repeated CID; a sentinel message from C closes the observation window (no timeout decides non-delivery); oracle: every delivered announcement carries the announced CID once, direct and re-published announcements are attributed to the original publisher (never the relay), the receiver on A never delivers A's own re-publication; R3 delivers only announcements whose original publisher its filter accepts, and delivers every CID that R2 (same host, same message order) delivered for an accepted publisher, in particular those relayed by the rejected host A. Messages that did not arrive before the sentinel are counted as inconclusive, never reported. Non-trivial: the case contains a self re-publication or >= 3 operations and nothing was inconclusive; distinct by case.",
 		Assumptions: []string{"gossipsub delivery on loopback; ordering across different senders is not assumed", "missing deliveries are not asserted here (the direct path in TestC09_Direct decides 'delivered iff' exactly)"},
 	}, genCase, runCase(t))
 }
